@@ -194,8 +194,18 @@ func (cfg *Config) PutCredential(serverAddress string, cred auth.Credential) err
 	if err != nil {
 		return fmt.Errorf("failed to marshal auth field: %w", err)
 	}
+	oldAuthCfgBytes, existed := cfg.authsCache[serverAddress]
 	cfg.authsCache[serverAddress] = authCfgBytes
-	return cfg.saveFile()
+	if err := cfg.saveFile(); err != nil {
+		// keep the in-memory document in line with the file
+		if existed {
+			cfg.authsCache[serverAddress] = oldAuthCfgBytes
+		} else {
+			delete(cfg.authsCache, serverAddress)
+		}
+		return err
+	}
+	return nil
 }
 
 // DeleteAuthConfig deletes the corresponding credential for serverAddress.
@@ -203,12 +213,19 @@ func (cfg *Config) DeleteCredential(serverAddress string) error {
 	cfg.rwLock.Lock()
 	defer cfg.rwLock.Unlock()
 
-	if _, ok := cfg.authsCache[serverAddress]; !ok {
+	oldAuthCfgBytes, ok := cfg.authsCache[serverAddress]
+	if !ok {
 		// no ops
 		return nil
 	}
 	delete(cfg.authsCache, serverAddress)
-	return cfg.saveFile()
+	if err := cfg.saveFile(); err != nil {
+		// keep the in-memory document in line with the file, so that a retry
+		// does not take the entry for deleted
+		cfg.authsCache[serverAddress] = oldAuthCfgBytes
+		return err
+	}
+	return nil
 }
 
 // GetCredentialHelper returns the credential helpers for serverAddress.
